@@ -28,6 +28,7 @@ def _tlc_one(args):
             bad.append((int(m.group(1)), c))
     n = sum(1 for _ in open(trace))
     res = dict(trace=trace, bad=bad, distinct=r.distinct, generated=r.generated, lines=n, error=r.error, finished=r.finished, wall=r.wall,
+               consumed=("VERIF_CONSUMED" in r.out), depth=r.depth,
                tail=r.out[-1500:] if (r.error or r.distinct != n) else "")
     shutil.rmtree(workdir, ignore_errors=True)
     return res
@@ -85,10 +86,11 @@ def judge_conf(ck, results):
     for r in results:
         if r["error"]:
             raise Inconclusive("conformance spec failed on %s: %s\n%s" % (r["trace"], r["error"], r["tail"]))
-        if r["distinct"] != r["lines"]:
+        if not r["consumed"]:
             ev = vlib.read_ndjson(r["trace"])
-            stuck = ev[r["distinct"]] if r["distinct"] < len(ev) else None
-            raise Inconclusive("spec drift: GPBFT.tla cannot explain line %d of %s: %s" % (r["distinct"] + 1, r["trace"], json.dumps(stuck)[:700]))
+            at = max(1, r["depth"])          # depth of the search = longest explained prefix (+ the Config line)
+            stuck = ev[at] if at < len(ev) else None
+            raise Inconclusive("spec drift: GPBFT.tla cannot explain line %d of %s: %s" % (at + 1, r["trace"], json.dumps(stuck)[:700]))
         ck.cov["states"] += r["distinct"]
         ck.cov["transitions"] += r["generated"]
     ck.cov.setdefault("conformance_traces", 0)
